@@ -54,6 +54,18 @@ def C08(m, rnd):
                 col.add_diffs("old-schema-roundtrip", diffs)
             if sorted(r.raw for r in W.split(b2)) != sorted(r.raw for r in recs):
                 col.add("old-schema-roundtrip-records", "records changed: %s -> %s" % (base.hex()[:100], b2.hex()[:100]))
+            # the older writer may use any of the write paths (SerializeToString, dump, delimited dump)
+            s1, s2 = io.BytesIO(), io.BytesIO()
+            old.dump(s1)
+            old.dump(s2, SIZE_DELIMITED)
+            if old.SerializeToString() != b2 or s1.getvalue() != b2:
+                col.add("old-schema-writers-disagree", "bytes %s SerializeToString %s dump %s" % (b2.hex()[:80], old.SerializeToString().hex()[:80], s1.getvalue().hex()[:80]))
+            if s2.getvalue() != _ref_frame(b2):
+                col.add("old-schema-delimited-relay-framing", "wrote %s, expected %s" % (s2.getvalue().hex()[:100], _ref_frame(b2).hex()[:100]))
+            else:
+                v3 = C.NewSchema().load(io.BytesIO(s2.getvalue()), SIZE_DELIMITED)
+                if bytes(v3) != bytes(v2):
+                    col.add("old-schema-delimited-relay-value", "%s -> %s" % (bytes(v2).hex()[:100], bytes(v3).hex()[:100]))
         except Exception as e:
             for t in blame(m, lambda i: C.NewSchema().parse(bytes(C.OldSchema().parse(bytes(i)))) and False):
                 col.add("old-schema-roundtrip-raises:%s" % t, exc(e))
